@@ -265,7 +265,7 @@ def _gen_meta(rng):
     n = int(rng.integers(3, 25))
     for i in range(n):
         key = ("~" if rng.random() < 0.15 else "") + "k" + "".join(rng.choice(list("abcXYZ_09"), int(rng.integers(1, 8))))
-        kind = rng.choice(["str", "int", "float", "ilist", "eq", "bigint", "small"])
+        kind = rng.choice(["str", "int", "float", "ilist", "eq", "bigint", "small", "dots"])
         if kind == "str":
             val = "".join(rng.choice(list("abc /:;()[]-_xyz"), int(rng.integers(0, 12))))
         elif kind == "int":
@@ -278,6 +278,12 @@ def _gen_meta(rng):
             val = "a=b=" + str(int(rng.integers(0, 100)))
         elif kind == "bigint":
             val = str(int(rng.integers(10 ** 15, 10 ** 17)))
+        elif kind == "dots":
+            # digits, dots and commas with two or more dots (version numbers, addresses, lists of decimals): not a scalar nor an integer list, kept verbatim
+            items = [f"{rng.random() * 400:.{int(rng.integers(1, 4))}f}" if rng.random() < 0.7 else str(int(rng.integers(0, 400))) for _ in range(int(rng.integers(2, 5)))]
+            val = rng.choice([",", "."]).join(items)
+            if val.count(".") < 2:
+                val = "1." + val + ".128"
         else:
             val = f"{rng.random() * 1e-4:.9f}"
         lines[key] = val
@@ -298,7 +304,7 @@ def _roundtrip(text, d):
 
 
 @bounded(PROPERTY, "native_roundtrip_and_gains", bound="read->write->read over every shipped meta file + 300 (thorough 3000) grammar-generated files (strings, ints up to 1e17, floats with <=6 decimals, "
-         "integer lists with items up to 1e9, tilde keys, '=' in values, scalars < 1e-4); 60 generated gain tables with channel subsets",
+         "integer lists with items up to 1e9, tilde keys, '=' in values, scalars < 1e-4, digit/dot/comma strings with >= 2 dots); 60 generated gain tables with channel subsets",
          clause="textual round trip; gains on channel subsets with non uniform tables")
 def b_native(B):
     rng = np.random.default_rng(B.seed)
